@@ -776,7 +776,10 @@ AnyP::Uri::absolutePath() const
 {
     if (absolutePath_.isEmpty()) {
         // TODO: Encode each URI subcomponent in path_ as needed.
-        absolutePath_ = Encode(path(), PathChars());
+        // XXX: path_ still includes the query string (and any fragment). Their "?" and
+        // "#" delimiters must survive: "/p%3Fq" names a different resource than "/p?q".
+        static const auto pathQueryChars = (CharacterSet(PathChars()) + CharacterSet("delims", "?#")).rename("path-and-query");
+        absolutePath_ = Encode(path(), pathQueryChars);
     }
 
     return absolutePath_;
